@@ -458,3 +458,107 @@ Proof.
   - discriminate.
   - inversion H; subst. apply ploop_fail_index in P. lia.
 Qed.
+
+(* ---------------------------------------------------------------- descriptions *)
+(* a description: begins with something that is neither blank nor parenthesis, does not end in a blank *)
+Definition desc_ok (d : str) : bool :=
+  match d, rev d with
+  | c :: _, l :: _ => solid c && negb (is_space l)
+  | _, _ => false
+  end.
+
+Lemma lstrip_blanks ws x : forallb is_space ws = true -> lstrip (ws ++ x) = lstrip x.
+Proof.
+  induction ws as [|c t IH]; intros H; [reflexivity|].
+  cbn [forallb] in H. apply andb_true_iff in H. destruct H as [Hc Ht]. cbn [app lstrip]. rewrite Hc. exact (IH Ht).
+Qed.
+
+Lemma desc_ok_inv d : desc_ok d = true ->
+  exists c t l u, d = c :: t /\ rev d = l :: u /\ solid c = true /\ is_space l = false.
+Proof.
+  unfold desc_ok. destruct d as [|c t]; [discriminate|]. destruct (rev (c :: t)) as [|l u] eqn:R; [discriminate|].
+  intros H. apply andb_true_iff in H. destruct H as [A B]. apply negb_true_iff in B.
+  exists c, t, l, u. repeat split; assumption.
+Qed.
+
+Lemma strip_blanks_desc ws d : forallb is_space ws = true -> desc_ok d = true -> strip (ws ++ d) = d.
+Proof.
+  intros Hw Hd. destruct (desc_ok_inv d Hd) as [c [t [l [u [E [R [Hc Hl]]]]]]].
+  destruct (solid_facts c Hc) as [_ [Hs _]].
+  unfold strip. rewrite (lstrip_blanks ws d Hw). rewrite E at 1. rewrite (lstrip_solid c t Hs). rewrite <- E, R.
+  rewrite (lstrip_solid l u Hl). rewrite <- R. apply rev_involutive.
+Qed.
+
+(* after the groups (and blanks), a character that is neither blank nor parenthesis ends the annotation part *)
+Lemma parse_groups_break items ws c rest :
+  Forall (fun wb => forallb is_space (fst wb) = true /\ forallb plain (snd wb) = true /\ snd wb <> []) items ->
+  forallb is_space ws = true -> solid c = true ->
+  exists e, parse_groups (render_groups items ++ ws ++ c :: rest) = GOk (map (fun wb => strip (snd wb)) items) e
+            /\ (items <> [] -> e = List.length (render_groups items)) /\ (items = [] -> e = 0%nat).
+Proof.
+  intros H Hw Hc. unfold parse_groups, ps0.
+  destruct (ploop_groups items (ws ++ c :: rest) 0 None 0%nat 0%nat [] H eq_refl) as [p [s1 [e1 [E [Hp [He He0]]]]]].
+  rewrite E.
+  destruct (ploop_blanks ws (c :: rest) (0 + List.length (render_groups items)) p s1 e1 ([] ++ map (fun wb => strip (snd wb)) items) Hw) as [p' [E' _]].
+  rewrite E'. cbn [ploop]. unfold pstep.
+  destruct (solid_facts c Hc) as [Hpl [Hs _]]. unfold plain in Hpl. apply andb_true_iff in Hpl. destruct Hpl as [A B].
+  apply negb_true_iff in A. apply negb_true_iff in B. rewrite A, B, Hs. cbn [ps_level ps_groups ps_end app].
+  exists e1. split; [reflexivity|]. split; [intros Hne; rewrite (He Hne); reflexivity | intros H0; exact (He0 H0)].
+Qed.
+
+(* a field without annotations is its description, a leading colon included *)
+Theorem description_only ws d :
+  forallb is_space ws = true -> desc_ok d = true -> parse_fields (ws ++ d) = Some ([], d, false).
+Proof.
+  intros Hw Hd. destruct (desc_ok_inv d Hd) as [c [t [l [u [E [R [Hc Hl]]]]]]].
+  unfold parse_fields. rewrite E.
+  destruct (parse_groups_break [] ws c t (Forall_nil _) Hw Hc) as [e [G [_ He]]]. cbn [render_groups flat_map app] in G.
+  rewrite G, (He eq_refl). cbn [skipn map]. rewrite <- E. rewrite (strip_blanks_desc ws d Hw Hd). rewrite E. reflexivity.
+Qed.
+
+(* annotations, the separating colon, the description: the annotations are read back and the
+   description is what follows the colon *)
+Theorem fields_with_description anns d :
+  Forall wf_ann anns -> NoDup (map fst anns) -> anns <> [] -> desc_ok d = true ->
+  parse_fields (serialize_annotations (map (fun a => (fst a, AList (snd a))) anns) ++ 58 :: sp :: d)
+  = Some (map (fun a => (fst a, AList (snd a))) anns, sp :: d, false).
+Proof.
+  intros H N Hne Hd.
+  assert (S : serialize_annotations (map (fun a => (fst a, AList (snd a))) anns)
+              = render_groups (items_of (map (fun a => body_of (fst a) (snd a)) anns))).
+  { unfold serialize_annotations. rewrite map_map. rewrite <- serialize_as_groups. rewrite map_map. f_equal.
+    apply map_ext. intros [n o]. unfold serialize_annotation. cbn [fst snd serialize_value body_of].
+    destruct o as [|o1 t]; [reflexivity|]. cbn. rewrite <- app_assoc. reflexivity. }
+  unfold parse_fields. rewrite S.
+  set (bodies := map (fun a => body_of (fst a) (snd a)) anns).
+  assert (HI : Forall (fun wb => forallb is_space (fst wb) = true /\ forallb plain (snd wb) = true /\ snd wb <> []) (items_of bodies)).
+  { assert (HB : Forall (fun b => forallb plain b = true /\ b <> []) bodies).
+    { unfold bodies. apply Forall_forall. intros b Hb. apply in_map_iff in Hb. destruct Hb as [[n o] [<- Hin]].
+      rewrite Forall_forall in H. destruct (H _ Hin) as [Hn Ho]. destruct (body_plain n o Hn Ho) as [A [B _]]. split; assumption. }
+    destruct bodies as [|b t]; [constructor|]. inversion HB as [|x y [A B] HT]; subst. cbn [items_of]. constructor; [repeat split; assumption|].
+    apply Forall_forall. intros wb Hwb. apply in_map_iff in Hwb. destruct Hwb as [x [<- Hx]]. rewrite Forall_forall in HT. destruct (HT x Hx) as [C D].
+    repeat split; try assumption. }
+  assert (Hcolon : solid 58 = true) by (vm_compute; reflexivity).
+  destruct (parse_groups_break (items_of bodies) [] 58 (sp :: d) HI eq_refl Hcolon) as [e [E [He _]]]. cbn [app] in E. rewrite E.
+  match type of E with _ = GOk ?m _ => assert (G : m = bodies) end.
+  { assert (HS : Forall (fun b => strip b = b) bodies).
+    { unfold bodies. apply Forall_forall. intros b Hb. apply in_map_iff in Hb. destruct Hb as [[n o] [<- Hin]].
+      rewrite Forall_forall in H. destruct (H _ Hin) as [Hn Ho]. destruct (body_plain n o Hn Ho) as [_ [_ C]]. exact C. }
+    destruct bodies as [|b t]; [reflexivity|]. inversion HS as [|x y A B]; subst. cbn [items_of map snd]. rewrite A. f_equal.
+    rewrite map_map. cbn [snd]. apply map_id_on. exact B. }
+  rewrite G. unfold annotations_of, bodies. rewrite (annotations_of_bodies anns [] H); [|cbn; exact N]. cbn [app].
+  assert (Hb : items_of (map (fun a => body_of (fst a) (snd a)) anns) <> []).
+  { destruct anns as [|a t]; [congruence|]. cbn. discriminate. }
+  rewrite (He Hb).
+  assert (Hsk : forall (x y : str), skipn (List.length x) (x ++ y) = y).
+  { intros x y. induction x as [|a x IH]; [reflexivity|exact IH]. }
+  rewrite Hsk.
+  assert (Hst : strip (58 :: sp :: d) = 58 :: sp :: d).
+  { destruct (desc_ok_inv d Hd) as [c [t [l [u [Ed [R [Hc Hl]]]]]]].
+    apply strip_solid_ends; [discriminate| |].
+    - intros c0 t0 E0. inversion E0; subst. vm_compute. reflexivity.
+    - intros c0 t0 E0. cbn [rev] in E0. rewrite R in E0. cbn [app] in E0. inversion E0; subst. exact Hl. }
+  rewrite Hst. rewrite N.eqb_refl.
+  destruct anns as [|a t]; [congruence|]. unfold bodies.
+  cbn [map items_of render_groups flat_map fst snd app List.length Nat.ltb Nat.leb]. reflexivity.
+Qed.
